@@ -451,7 +451,7 @@ func renderFamily(b *batch, f *famProg) {
 			fresh = x.fnRef("Mk", i, "main") + "()"
 		}
 		fmt.Fprintf(mb, "\t{ a, b := %sIc%s_%s(%s); println(a, b) }\n", qual("main", mid[0]), pre, mid[1], fresh)
-		add(cell{want: dispWant(d), kind: "disp", a: di})
+		add(cell{want: dispWant(d), kind: "disp", a: di, b: 1})
 	}
 	fmt.Fprintf(mb, "\tprintln(\"#E\", %d)\n}\n\n", f.idx)
 	add(cell{want: fmt.Sprintf("#E %d", f.idx), kind: "end"})
